@@ -2,9 +2,10 @@
 # Offline setup: pre-build the orchestrator and the harness test binary so the first check
 # does not pay the cold build. Everything comes from /repo, /verif and the module cache.
 set -e
-cd /verif/harness
+ROOT="$(cd "$(dirname "$0")" && pwd)"
+cd "$ROOT/harness"
 export GOFLAGS=-mod=mod GOPROXY=off GOSUMDB=off GOTOOLCHAIN=local
-mkdir -p /verif/.build /verif/evidence /verif/replays
-go1.26 build -o /verif/.build/vcheck.setup ./cmd/vcheck && rm -f /verif/.build/vcheck.setup
-go1.26 test -c -tags verif -vet=off -o /verif/.build/harness.test ./checks
+mkdir -p "$ROOT"/.build "$ROOT"/evidence "$ROOT"/replays
+go1.26 build -o "$ROOT"/.build/vcheck.setup ./cmd/vcheck && rm -f "$ROOT"/.build/vcheck.setup
+go1.26 test -c -tags verif -vet=off -o "$ROOT"/.build/harness.test ./checks
 echo setup ok
